@@ -25,10 +25,10 @@ namespace BitSerializer::Detail
 			size_t loadedItems = 0;
 			for (auto it = cont.begin(); it != cont.end() && !arrayScope.IsEnd(); ++it, ++loadedItems)
 			{
-				// An existing item that was not loaded (e.g. null) must not keep its previous content
-				if (!Serialize(arrayScope, *it)) {
-					*it = typename TContainer::value_type();
-				}
+				// An existing item must not keep anything of its previous content: neither when it is not loaded at all (e.g. null),
+				// nor the members of an object which are absent in the archive (a new item would have the default values there)
+				*it = typename TContainer::value_type();
+				Serialize(arrayScope, *it);
 			}
 			// Load all left items
 			for (; !arrayScope.IsEnd(); ++loadedItems)
